@@ -521,7 +521,14 @@ func checkNormalisationTables(p *Prog, r *Result, rule string) {
 	}
 	// (1) constructor: for each asserted type, the class of the value it stores
 	classOf := map[string]string{}
-	for _, b := range ctor.Blocks {
+	// the type switch sits in the constructor or in a helper it hands the value to
+	var ctorBlocks []*ssa.BasicBlock
+	for _, f := range calleesWithin(p, ctor, 1) {
+		if f == ctor || (f.Signature.Recv() == nil && f.Parent() == nil) {
+			ctorBlocks = append(ctorBlocks, f.Blocks...)
+		}
+	}
+	for _, b := range ctorBlocks {
 		for _, in := range b.Instrs {
 			ta, ok := in.(*ssa.TypeAssert)
 			if !ok || !ta.CommaOk {
